@@ -425,6 +425,12 @@ def boundary_scenarios():
                         ins=[(h, k, b"", k) for k in range(n)], uns=[(k + 1, b"\x51") for k in range(n)])
         res.append((many_out, b"\xac", n - 1))
         res.append((many_out, b"\xac", 1))
+    # input positions beyond one byte and beyond CPython's small-int cache (>= 257): NONE / SINGLE blank the sequences of the
+    # OTHER inputs only, whatever the position of the signed one (seed C06-e1 compared the position with `is`)
+    big = dict(base, outs=[(k, bytes([0x51 + (k & 7)])) for k in range(259)],
+               ins=[(h, k, b"", k + 5) for k in range(260)], uns=[(k + 1, b"\x51") for k in range(260)])
+    for idx in (255, 256, 257, 258, 259):
+        res.append((big, b"\xac", idx))
     return res
 
 
